@@ -107,6 +107,23 @@ func checkC04(c *Ctx) {
 		checkC11(c)
 		c.R.Explanation, c.R.NotDecided, c.R.Assumptions = expl+" The listening-stream table rules of C11 are evaluated as well.", nd, as
 	}
+	x := newC04ctx(c)
+	if x == nil {
+		return
+	}
+	x.entropy()
+	flag := x.issuePoint()
+	x.refuse()
+	x.headerGuard()
+	x.flagWired()
+	x.stateless(flag)
+	x.deleteRule()
+	x.table()
+	x.reportFromTable()
+}
+
+// newC04ctx discovers the session table, the stream table and the functions around them (nil when an anchor is missing).
+func newC04ctx(c *Ctx) *c04ctx {
 	x := &c04ctx{c: c, guardFlags: map[string]bool{}, accs: CollectAccesses(c), inserters: map[*ssa.Function]bool{}, deleters: map[*ssa.Function]bool{}, lookers: map[*ssa.Function]bool{},
 		reachCache: map[*ssa.Function]map[*ssa.Function]bool{}}
 
@@ -128,7 +145,7 @@ func checkC04(c *Ctx) {
 	}
 	if x.sessTable == "" {
 		c.R.Break("anchor not found: session table (map field with values *session.T)")
-		return
+		return nil
 	}
 	for _, a := range x.accs {
 		if a.Field != x.sessTable {
@@ -187,7 +204,7 @@ func checkC04(c *Ctx) {
 	}
 	if x.entry == nil || x.streamTbl == "" {
 		c.R.Break("anchor not found: ServeHTTP of the type owning the listening-stream table")
-		return
+		return nil
 	}
 	x.httpFns = map[*ssa.Function]bool{}
 	for f := range c.ReachSync(x.entry) {
@@ -198,15 +215,7 @@ func checkC04(c *Ctx) {
 	c.R.Extra["session_table"] = x.sessTable
 	c.R.Extra["stream_table"] = x.streamTbl
 
-	x.entropy()
-	flag := x.issuePoint()
-	x.refuse()
-	x.headerGuard()
-	x.flagWired()
-	x.stateless(flag)
-	x.deleteRule()
-	x.table()
-	x.reportFromTable()
+	return x
 }
 
 // ---------------------------------------------------------------- R-sid-entropy
@@ -453,6 +462,65 @@ func (x *c04ctx) issuePoint() string {
 		if g.Branch && boolFromCompare(c, cr.fn, g.If.Cond, "initialize", 0) {
 			isInit = true
 		}
+	}
+	// what decides that a POST opens a session is its header, its id and its method — nothing read from the rest of
+	// the message: a well-formed initialize with unusable params is answered by the shared handler (-32602) like on
+	// every other transport and mode, not refused at the HTTP level because "it is no initialize"
+	{
+		body := ""
+		seenV := map[ssa.Value]bool{}
+		var scan func(f *ssa.Function, v ssa.Value, d int)
+		scan = func(f *ssa.Function, v ssa.Value, d int) {
+			if v == nil || d > 8 || seenV[v] || body != "" {
+				return
+			}
+			seenV[v] = true
+			switch y := v.(type) {
+			case *ssa.BinOp:
+				scan(f, y.X, d+1)
+				scan(f, y.Y, d+1)
+			case *ssa.UnOp:
+				if u := unspill(y); u != ssa.Value(y) {
+					scan(f, u, d+1)
+				} else if y.Op == token.NOT {
+					scan(f, y.X, d+1)
+				}
+			case *ssa.Phi:
+				for _, e := range y.Edges {
+					scan(f, e, d+1)
+				}
+				// the conditions under which the edges are taken (a && b && c)
+				for _, pb := range y.Block().Preds {
+					if ifi, ok := pb.Instrs[len(pb.Instrs)-1].(*ssa.If); ok {
+						scan(f, ifi.Cond, d+1)
+					}
+				}
+			case *ssa.Call:
+				if strings.HasPrefix(ir.CallName(y), "encoding/json.") || strings.HasPrefix(ir.CallName(y), "(*encoding/json.") {
+					return // "the message could be decoded at all" is not a decision about its content
+				}
+				for _, a := range y.Call.Args {
+					switch ir.TypeStr(a.Type()) {
+					case "encoding/json.RawMessage", "[]byte", "map[string]interface{}", "*mcp.JSONRPCRequest", "interface{}":
+						body = ir.CallName(y)
+					}
+				}
+				if sc := ir.StaticCallee(y); sc != nil && c.P.IsLib(sc) && body == "" {
+					for _, b := range sc.Blocks {
+						if ret, ok := b.Instrs[len(b.Instrs)-1].(*ssa.Return); ok && b != sc.Recover && len(ret.Results) > 0 {
+							scan(sc, ir.Results(ret)[0], d+1)
+						}
+					}
+				}
+			case *ssa.Lookup:
+				body = "a lookup in the decoded message"
+			}
+		}
+		for _, g := range guards {
+			scan(cr.fn, g.If.Cond, 0)
+		}
+		c.R.Check(body == "", "R-issue-point", "create in "+fname(cr.fn)+": decided by header, id and method only", c.Pos(cr.call.Pos()), "no condition of the session-opening branch inspects the message body",
+			sprintf("whether %s opens a session for a POST also depends on the message body (%s): a well-formed initialize whose parameters it does not like is not treated as an initialize — it is refused with an HTTP error for lacking a session id instead of being answered with the JSON-RPC error every other transport and mode gives", fname(cr.fn), body))
 	}
 	// stateless flag: the bool field whose true edge guards the throw-away session construction
 	flag := ""
